@@ -18,6 +18,15 @@ var redirectTable = map[string]string{
 	"github.com/jhillyerd/enmime/v2.DecodeHeaders":   "ModelEnmimeDecodeHeaders",
 	"github.com/jhillyerd/enmime/v2.ParseAddressList": "ModelEnmimeParseAddressList",
 	"(net/textproto.MIMEHeader).Get":                  "ModelMIMEHeaderGet",
+	"net/http.NotFound":                               "ModelHTTPNotFound",
+	"net/http.Error":                                  "ModelHTTPError",
+	"(net/http.Header).Set":                           "ModelHeaderSet",
+	"encoding/json.NewEncoder":                        "ModelJSONNewEncoder",
+	"(*encoding/json.Encoder).Encode":                 "ModelJSONEncode",
+	"encoding/json.NewDecoder":                        "ModelJSONNewDecoder",
+	"(*encoding/json.Decoder).Decode":                 "ModelJSONDecode",
+	"io.Copy":                                         "ModelIOCopy",
+	"github.com/jhillyerd/enmime/v2.ReadEnvelope":     "ModelEnmimeReadEnvelope",
 	"fmt.Fprint":                              "ModelFprint",
 	"sort.Slice":                              "ModelSortSlice",
 	"github.com/kelseyhightower/envconfig.Process": "ModelEnvconfigProcess",
